@@ -48,10 +48,13 @@ def run(pid, tier):
     # 3. the real code
     common.run_bin('algo', ['--in', fa, '--out', fr, '--deadline', '30'], timeout=6000, log=os.path.join(d, 'harness.log'), package='vh-core')
     res = common.read_ndjson(fr)
-    if len(res) < len(cases) and sum(1 for r in res if r['status'] == 'timeout') < 6:
+    if len(res) < len(cases):
         raise ToolError('harness answered %d of %d cases' % (len(res), len(cases)))
+    skipped = sum(1 for r in res if r['status'] == 'skipped')
     recs = []
     for r in res:
+        if r['status'] == 'skipped':      # after 3 hung calls of one kind the harness stops calling that algorithm
+            continue
         c = cases[r['c'] - 1]
         recs.append({'kind': c['kind'], 'c': r['c'], 'in': {k: v for k, v in c.items() if k not in ('clusters',)}, 'act': r})
     # conformance with the model's terminal state (same order): diagnostic, not a verdict
@@ -106,21 +109,21 @@ def run(pid, tier):
         r = recs[i - 1]
         inp = r['in']
         qual = r['kind']
-        if r['kind'] == 'lkh':
-            qual = 'lkh-n%d' % inp['n'] if inp['n'] < 3 else 'lkh'
+        if r['kind'] in ('lkh', 'lkhgeo'):
+            qual = 'lkh-n%d' % inp['n'] if inp['n'] < 3 else r['kind']
         if r['kind'] == 'hier' and inp['n'] == 1:
             qual = 'hier-single-point'
         verdict.add('C17/%s/%s' % (name, qual), 'case %d %s: in=%s act=%s' % (r['c'], r['kind'], json.dumps(inp)[:400], json.dumps(r['act'])[:300]), r)
     rc = verdict.finish()
     by = collections.Counter(r['kind'] for r in recs)
-    improved = sum(1 for r in recs if r['kind'] == 'lkh' and r['act']['status'] == 'ok' and r['act']['outs'] and r['act']['outs'][-1] != r['in']['path'])
+    improved = sum(1 for r in recs if r['kind'] in ('lkh', 'lkhgeo') and r['act']['status'] == 'ok' and r['act']['outs'] and r['act']['outs'][-1] != r['in']['path'])
     cov = {'states': mc_states + lv.distinct + jr.distinct, 'transitions': jr.generated + lv.generated, 'traces_validated_against_impl': len(recs),
            'evaluations': len(recs), 'distinct_nontrivial': improved + sum(1 for r in recs if r['kind'] == 'db' and r['act'].get('clusters')) + by['km'] + by['hier'],
            'rule': 'one evaluation = one call of lkh_optimize / create_clusters / create_kmedoids / create_hierarchical_kmedoids on a TLC-generated input, output judged by the contracts of Algo.tla; non-trivial = LKH runs that changed the path, clusterings with at least one cluster, all k-medoids runs',
            'samples': [{'kind': r['kind'], 'in': {k: v for k, v in r['in'].items() if k in ('n', 'path', 'm', 'order', 'nb', 'minPts', 'k', 'tiers')}, 'act': r['act']} for r in (recs[len(recs) // 3], recs[-1])],
            'exhaustive': True, 'by_kind': dict(by), 'lkh_improved': improved, 'dbscan_model_states': mc_states, 'dbscan_terminal_states_replayed': len(emits),
            'dbscan_output_equals_model': model_equal, 'dbscan_output_differs_from_model': model_diff,
-           'canaries_rejected': len(cans), 'known_finding_hits': {k: len(v) for k, v in verdict.known_hits.items()}}
+           'canaries_rejected': len(cans), 'skipped_after_hangs': skipped, 'known_finding_hits': {k: len(v) for k, v in verdict.known_hits.items()}}
     common.write_evidence(pid, tier, 'model_checking', cov, time.time() - t0, len(verdict.violations),
-                          ['integer costs / distances (exact float arithmetic); LKH: symmetric matrices with zero diagonal, 1-9 nodes, neighbour lists = all or the 2-3 nearest other nodes; clustering: up to 4 points for the exhaustive relation sweep; k-medoids: k <= number of points, up to 11 points; hierarchy: the nearest-medoid rule is judged among clusters splitting the same parent'])
+                          ['integer costs / distances (exact float arithmetic) except the Euclidean LKH stratum, whose closed costs are computed by the harness in f64 and compared with 1e-6 tolerance; LKH: symmetric matrices with zero diagonal, 1-9 nodes, neighbour lists = all or the 2-3 nearest other nodes; clustering: up to 4 points for the exhaustive relation sweep; k-medoids: k <= number of points, up to 11 points; hierarchy: the nearest-medoid rule is judged among clusters splitting the same parent'])
     return rc
